@@ -700,18 +700,13 @@ func (b *BlockWise[C]) getPayloadFromCachedReceivedMessage(r, cachedReceivedMess
 	}
 	rETAG, errETAG := r.GetOptionBytes(message.ETag)
 	cachedReceivedMessageETAG, errCachedReceivedMessageETAG := cachedReceivedMessage.GetOptionBytes(message.ETag)
-	switch {
-	case errETAG == nil && errCachedReceivedMessageETAG != nil:
-		if len(cachedReceivedMessageETAG) > 0 { // make sure there is an etag there
-			return nil, 0, fmt.Errorf("received message doesn't contains ETAG but cached received message contains it(%v)", cachedReceivedMessageETAG)
+	if (errETAG == nil) != (errCachedReceivedMessageETAG == nil) || !bytes.Equal(rETAG, cachedReceivedMessageETAG) {
+		// ETAG was changed, appeared or disappeared - drop data and set new ETAG
+		if errETAG == nil {
+			cachedReceivedMessage.SetOptionBytes(message.ETag, rETAG)
+		} else {
+			cachedReceivedMessage.Remove(message.ETag)
 		}
-	case errETAG != nil && errCachedReceivedMessageETAG == nil:
-		if len(rETAG) > 0 { // make sure there is an etag there
-			return nil, 0, fmt.Errorf("received message contains ETAG(%v) but cached received message doesn't", rETAG)
-		}
-	case !bytes.Equal(rETAG, cachedReceivedMessageETAG):
-		// ETAG was changed - drop data and set new ETAG
-		cachedReceivedMessage.SetOptionBytes(message.ETag, rETAG)
 		if err := payloadFile.Truncate(0); err != nil {
 			return nil, 0, fmt.Errorf("cannot truncate cached request: %w", err)
 		}
